@@ -168,6 +168,9 @@ def c06(tier, seed):
     extra = []
     for d in descs:
         if d["op"] == "as_slice":
+            # usize::MAX as skip count from every position (index + n must not overflow)
+            extra.append(dict(d, op="nth", arg=2147483647))
+            extra.append(dict(d, op="nth_back", arg=2147483647))
             for i in range(d["b"] - d["f"]):
                 extra.append(dict(d, op="as_mut_swap", arg=i))
     scns = [iter_script(d, "C06") for d in descs + extra]
@@ -981,7 +984,7 @@ def alloc_failure_scenarios(c, binary, scns, name):
 
 # (Box::clone of a large array is std's `Box::new((**self).clone())` and is not among the constructors
 #  the property names; it overflows a small stack in debug builds by design of std, so it is not demanded.)
-BIG_OPS = ["default_boxed", "generate", "box_arr_repeat", "boxed_from_iter", "try_boxed_from_iter", "boxed_map", "generate_bigelem", "default_boxed_bigelem"]
+BIG_OPS = ["default_boxed", "generate", "box_arr_repeat", "boxed_from_iter", "try_boxed_from_iter", "boxed_map", "generate_bigelem", "default_boxed_bigelem", "default_boxed_32x16k"]
 
 
 @check("C15")
